@@ -164,6 +164,17 @@ Lemma fref_ctor_wf_old_refuted :
   fref_ctor_wf_old_m QR RV = true /\ fref_ctor_wf_spec QR RV = false /\ fref_ctor_wf_old_m QL RV = false /\ fref_ctor_wf_spec QL RV = true.
 Proof. repeat split; reflexivity. Qed.
 
+Lemma wrapcopy_agrees : forall x y, wrapcopy_m x y = wrapcopy_spec x y.
+Proof.
+  intros x y. unfold wrapcopy_m, wrapcopy_spec.
+  replace (negb (y <? x)) with (x <=? y) by (destruct (Z.ltb_spec y x); destruct (Z.leb_spec x y); try reflexivity; lia).
+  replace ((x + 1) * 1000 + y * 10 + 1) with (1000 * x + 10 * y + 1001) by lia.
+  replace ((x + 2) * 1000 + y * 10 + 2) with (1000 * x + 10 * y + 2002) by lia.
+  replace ((x + 2) * 1000 + y * 10 + 3) with (1000 * x + 10 * y + 2003) by lia.
+  replace ((x + 3) * 1000 + y * 10 + 4) with (1000 * x + 10 * y + 3004) by lia.
+  reflexivity.
+Qed.
+
 Lemma tuple_swappable_agrees : forall es, ~ In ECopyOnly es -> tuple_swappable_m es = tuple_swappable_spec es.
 Proof.
   intros es H. unfold tuple_swappable_m, tuple_swappable_spec.
